@@ -1748,8 +1748,11 @@ class ListProxy(list):
                 'Cannot pop an object from {clsname}.objects if '
                 'objects was not declared as a dictionary.'
             )
+        if index not in self._parameter.names and len(args) > 1:
+            # Like dict.pop(key, default): nothing is removed
+            return args[1]
         with self._trigger():
-            object = self._parameter.names.pop(*args)
+            object = self._parameter.names.pop(index)
             super().remove(object)
             self._parameter._objects.remove(object)
         return object
